@@ -515,6 +515,7 @@ func (e *FnEnc) loopHeader(b *ssa.BasicBlock, li *loopInfo, fwd []*ssa.BasicBloc
 		entryVals[p] = Val{T: e.define("phi.in."+mangle(p.Name()), e.sorts().SortOf(p.Type()), phiIn(p, fwd)), Ty: p.Type()}
 	}
 	li.modRefs = map[string][]modT{}
+	li.entryVals = entryVals
 	if lc != nil {
 		envE := e.specEnv(pre, e.initState, entryVals)
 		envE.loopOrd = li.ordinal
@@ -707,6 +708,7 @@ func (e *FnEnc) backEdge(from *ssa.BasicBlock, li *loopInfo) {
 		envU := e.specEnv(st, e.initState, over)
 		envU.loopOrd = li.ordinal
 		envU.pre = li.preState
+		envU.site = from
 		envP := e.specEnv(li.hdrState, e.initState, nil)
 		envP.loopOrd = li.ordinal
 		envP.pre = li.preState
@@ -736,6 +738,7 @@ func (e *FnEnc) backEdge(from *ssa.BasicBlock, li *loopInfo) {
 		env := e.specEnv(st, e.initState, over)
 		env.loopOrd = li.ordinal
 		env.pre = li.preState
+		env.site = from
 		for k, c := range lc.Invariants {
 			if !clauseActive(c, e.prop) {
 				continue
@@ -906,6 +909,11 @@ func (e *FnEnc) lookupName(env *Env, name string, phiOver map[*ssa.Phi]Val) (Val
 					break
 				}
 				get := func() Val {
+					if env.preMode && li.entryVals != nil {
+						if v, ok := li.entryVals[p]; ok {
+							return v
+						}
+					}
 					if ci == 0 {
 						if v, ok := phiOver[p]; ok {
 							return v
@@ -1005,7 +1013,7 @@ func (e *FnEnc) lookupName(env *Env, name string, phiOver map[*ssa.Phi]Val) (Val
 				if b.block != site && !b.block.Dominates(site) {
 					continue
 				}
-				if b.block == site && env.loopOrd > 0 {
+				if b.block == site && env.loopOrd > 0 && e.loops[site] != nil {
 					continue
 				}
 				if best == nil || best.block.Dominates(b.block) {
